@@ -21,7 +21,7 @@ ASSUMPTIONS = ["linkify-generated pairs come from a stub linkifier (linkify-it-p
 def floors(tier):
     q = tier == "quick"
     return {"streams": 100000 if q else 2000000, "pairs.inline": 20000, "pairs.block": 50000, "image_children_streams": 2000,
-            "pairs.linkify": 100, "trees_built": 100000 if q else 2000000, "api.parseInline": 5000, "strike_lone_marker_docs": 20, "wl.path_families": 50}
+            "pairs.linkify": 100, "trees_built": 100000 if q else 2000000, "api.parseInline": 5000, "strike_lone_marker_docs": 20, "wl.path_families": 50, "wl.limits": 300}
 
 
 def check_stream(tokens, layer, ctx=None, path="top", inline_mode=False):
@@ -167,6 +167,15 @@ def run(ctx):
             if ctx.mine(i * 3 + size) or not ctx.quick:
                 ctx.count("wl.path_families")
                 check_case(ctx, {"api": "parse", "conf": conf, "src": F.build(fam, size)}, minimize=False)
+    # boundary-value catalogue (every documented or implied size/depth/count limit: just below, at, just above)
+    from vf import limits
+    for i, (name, src) in enumerate(limits.docs(big=True)):
+        if ctx.mine(i):
+            for conf in (W.PANEL[2], W.PANEL[1], W.PANEL[6]):
+                if len(src) > 100000 and conf is not W.PANEL[1]:
+                    continue
+                ctx.count("wl.limits")
+                check_case(ctx, {"api": "parse", "conf": conf, "src": src}, minimize=False)
     # dedicated inline nests: images in links in images, emphasis x strikethrough runs, linkify
     confs = [W.PANEL[2], W.PANEL[6], W.PANEL[1], {"preset": "gfm-like", "stub_linkify": True, "options": {"typographer": True}}]
     atoms = ["![", "[", "](u)", "](u \"t\")", "*", "**", "_", "~~", "~~~~~", "~", "~~~", "~~a~~~", "~~~]", "***", "__", "`", "a", " ", "http://x.y/z", "www.ex.com", "a@b.co",
